@@ -19,7 +19,43 @@ EXHAUSTIVE = {"quick": False, "thorough": False}
 
 
 @st.composite
+def _kaykobad(draw):
+    """one term with 2-4 eliminated variables and a context shaped like a Kaykobad system: per eliminated variable a row with a
+    dominant same-sign (refine) / opposite-sign (relax) diagonal entry, small off-diagonal entries, and kept variables"""
+    ne = draw(st.integers(2, 4))
+    elim = gens.NAMES[:ne]
+    kept = gens.NAMES[ne:ne + draw(st.integers(1, 2))]
+    pool = elim + kept
+    w = draw(gens.witness_s(pool))
+    refine = draw(st.booleans())
+    sgn = draw(st.sampled_from([1, -1]))
+    rs = sgn if refine else -sgn
+    q = {e: sgn * draw(st.sampled_from([1, 2, 3, 1.5])) for e in elim}
+    for k in kept:
+        if draw(st.booleans()):
+            q[k] = draw(gens.coef_s())
+    term = [q, float(gens.dot(q, w) + draw(st.sampled_from(gens.SLACKS)))]
+    ctx = []
+    for e in elim:
+        row = {e: rs * draw(st.sampled_from([1, 2, 3, 4]))}
+        for f in elim:
+            if f != e and draw(st.integers(0, 2)) > 0:
+                row[f] = rs * draw(st.sampled_from([0.25, 0.5, 1, 1, 2]))
+        if draw(st.integers(0, 2)) > 0:
+            row[draw(st.sampled_from(kept))] = draw(gens.coef_s())
+        ctx.append([row, float(gens.dot(row, w) + draw(st.sampled_from(gens.SLACKS)))])
+    if draw(st.booleans()):
+        ctx += draw(gens.termlist_s(pool, w, 1, 2))
+    ctx = list(draw(st.permutations(ctx)))
+    terms = [term] + (draw(gens.termlist_s(pool, w, 0, 1)))
+    return {"terms": terms, "ctx": ctx, "elim": elim, "refine": refine, "simplify": draw(st.booleans()),
+            "order": draw(st.sampled_from([None, [1], [3], [1, 2, 3, 4, 5], [3, 1], [1, 5]])), "shape": "kaykobad"}
+
+
+@st.composite
 def _case(draw):
+    if draw(st.integers(0, 5)) == 0:
+        return draw(_kaykobad())
     nv = draw(st.integers(2, 6))
     pool = gens.NAMES[:nv]
     shape = draw(st.sampled_from(["random", "random", "elimonly", "chain", "bounds", "bounds", "degenerate"]))
